@@ -70,7 +70,8 @@ EXPECTED_PROBES = {
             'inf_of_both_signs_in_one_file', 'alf_label_in_names', 'raw_cbin', 'raw_npy',
             'alf_times_without_samples'],
     'C05': ['sparse', 'dense', 'neighbourhood_bites', 'multi_shank', 'threshold_bites',
-            'explicit_channels', 'minus_one_column', 'signal_free_column'],
+            'explicit_channels', 'minus_one_column', 'signal_free_column', 'all_zero_template',
+            'queried_after_reload', 'wmi_file_left_by_earlier_load'],
     'C06': ['row_table', 'unknown_channel', 'empty_spike_list', 'waveform_route', 'tf_row_table',
             'unsorted_spikes'],
     'C08': ['multi_template_cluster', 'empty_id', 'undo', 'dirty_reload', 'highest_template_unused',
@@ -149,10 +150,20 @@ def gen(rng, prop, tier):
     elif prop == 'C05':
         ops = [{'op': 'load'}]
         for _ in range(rng.randint(1, 10)):
-            if rng.random() < 0.8:
+            r = rng.random()
+            if r < 0.72:
                 ops.append(_gen_template_query(rng, cfg))
-            else:
+                if cfg['poison'] and rng.random() < 0.3:
+                    ops[-1]['t'] = rng.choice(cfg['poison'][0]['ids'])
+                    ops[-1]['chans'] = None
+            elif r < 0.87:
                 ops.append({'op': 'q_cluster_channels', 'c': rng.randrange(nt)})
+            elif r < 0.95:
+                # the same directory loaded again: loading leaves files behind (inverse
+                # whitening matrix, cluster copy) that the next session reads
+                ops += [{'op': 'close'}, {'op': 'reload'}]
+            else:
+                ops.append({'op': 'dirty_reload'})
     elif prop == 'C06':
         wf_route = rng.random() < 0.3
         if wf_route:
@@ -702,6 +713,21 @@ class DatasetWorld(object):
         ctx, m, cfg, R = self.ctx, self.model, self.cfg, self.ref
         t = op['t']
         if t in self.g.nan_templates:
+            # an all-NaN template is zeroed by the loader: amplitudes tie everywhere, so only the
+            # existence and self-consistency of the record are asserted
+            if cfg['sparse']:
+                return
+            kw0 = {} if op['thr'] is None else {'amplitude_threshold': op['thr']}
+            b = ctx.real('get_template', m.get_template, t, unwhiten=op['unwhiten'],
+                         owners=('C05',), **kw0)
+            ctx.op('q_template', changes_state=False)
+            ctx.probe('all_zero_template')
+            ch = [int(x) for x in b.channel_ids]
+            W = np.asarray(b.template)
+            ctx.check(len(ch) >= 1 and len(set(ch)) == len(ch) and W.shape == (cfg['nsw'], len(ch))
+                      and not np.any(W) and np.asarray(b.amplitude).shape == (len(ch),)
+                      and not np.any(np.asarray(b.amplitude)), 'all-zero-template-record',
+                      lambda: {'t': t, 'channels': ch, 'shape': list(W.shape)})
             return
         chans = None if op['chans'] is None else np.array(op['chans'], dtype=np.int64)
         kw = {}
@@ -710,6 +736,10 @@ class DatasetWorld(object):
         b = ctx.real('get_template', m.get_template, t, channel_ids=chans,
                      unwhiten=op['unwhiten'], owners=('C05',), **kw)
         ctx.op('q_template', changes_state=False)
+        if self.n_loads >= 2:
+            ctx.probe('queried_after_reload')
+            if op['unwhiten'] and self.g.wm is not None and self.g.wmi_file is None:
+                ctx.probe('wmi_file_left_by_earlier_load')
         ch = [int(x) for x in b.channel_ids]
         W = np.asarray(b.template)
         ctx.ev('q_template', t, ch, np.asarray(b.amplitude))
